@@ -27,10 +27,13 @@ VARIANTS = {
     "plain": {},
     "throttled": {"server_kwargs": {"read_speed_limit": 4, "write_speed_limit": 4}},
     "slow-um": {"slow_um": True},
+    # the control connection comes in over IPv6 (PASV is refused there, EPSV served)
+    "ipv6": {"host": "::1"},
 }
 VARIANT_SCRIPTS = {
     "throttled": ["retr", "stor", "list", "rest-retr", "retr-then-quit"],
     "slow-um": ["login-only", "pwd", "retr", "retr-then-quit", "relogin"],
+    "ipv6": ["pasv-twice", "pasv-no-transfer", "list", "retr"],
 }
 
 
@@ -52,7 +55,7 @@ def run_cut(case, chooser):
     skw.update(variant.get("server_kwargs", {}))
     rig = Rig(chooser=chooser, n_sessions=n, tree=corpus.TREE, window=case.get("window", 1), spy=spy,
               server_kwargs=skw, users=_slow_users if variant.get("slow_um") else None,
-              via_run=case["cut"] == "cancel-run", **BACKENDS[case["backend"]])
+              via_run=case["cut"] == "cancel-run", host=variant.get("host", "127.0.0.1"), **BACKENDS[case["backend"]])
     problems = []
     try:
         w = rig.world
